@@ -222,6 +222,16 @@ Qed.
 Lemma sok_queue run infl wid p acts q : sok run infl wid p acts -> sok run infl wid (set_w_queue q p) acts.
 Proof. exact (fun H => H). Qed.
 
+Lemma shed_after_sok run infl wid t aid0 acts0 x :
+  (let '(p, acts, _) := x in sok run infl wid p acts /\ cast_rel aid0 acts0 acts /\ w_aid p = aid0) ->
+  let '(p', acts', _) := shed_after t x in
+  sok run infl wid p' acts' /\ cast_rel aid0 acts0 acts' /\ w_aid p' = aid0.
+Proof.
+  destruct x as [[p acts] out]. unfold shed_after. intros H.
+  destruct (w_dset p) as [[limit [|]]|]; try exact H.
+  destruct (shed_oldest _ t limit (w_queue p) out). exact H.
+Qed.
+
 Lemma enqueue_job_sok run infl wid t p acts out j :
   sok run infl wid p acts ->
   let '(p', acts', _) := enqueue_job t (p, acts, out) j in
@@ -230,14 +240,12 @@ Proof.
   intros S. unfold enqueue_job.
   match goal with |- context [if ?b then _ else _] => destruct b end;
     [split; [exact S|split; [left; reflexivity|reflexivity]]|].
+  apply (shed_after_sok run infl wid t (w_aid p) acts).
   destruct (w_curr p) as [|c0 cs] eqn:E.
   - destruct (next_non_expired t (w_queue p) (accept_ev j out)) as [[[o|] q'] out'].
     + apply (dispatch_job_sok run infl wid (set_w_queue (q' ++ [clear_port j]) p) acts out' o); assumption.
     + apply (dispatch_job_sok run infl wid (set_w_queue q' p) acts out' (clear_port j)); assumption.
-  - destruct (w_dset p) as [[limit [|]]|];
-      try (split; [exact S|split; [left; reflexivity|reflexivity]]).
-    destruct (shed_oldest _ t limit (w_queue p ++ [clear_port j]) (accept_ev j out)) as [q' out'].
-    split; [exact S|split; [left; reflexivity|reflexivity]].
+  - split; [exact S|split; [left; reflexivity|reflexivity]].
 Qed.
 
 Lemma replace_worker_sok run wid t p acts out a :
@@ -1028,7 +1036,8 @@ Proof.
   destruct (all_workers_gone w) eqn:G; [|exact H].
   destruct H as [H1 H2 H3 H4 H5 H6 H7 H8 H9 H10 H11].
   assert (DEAD : forall aid act, lookup aid (actors w) = Some act -> a_alive act = false).
-  { unfold all_workers_gone in G. rewrite forallb_forall in G. intros aid act La.
+  { unfold all_workers_gone in G. apply andb_prop in G. destruct G as [G _].
+    rewrite forallb_forall in G. intros aid act La.
     assert (I : In (aid, act) (actors w)).
     { clear -La. induction (actors w) as [|[k v] l IH]; simpl in *; [discriminate|].
       destruct (k =? aid) eqn:E; [apply N.eqb_eq in E; inversion La; subst; auto|auto]. }
@@ -1126,6 +1135,14 @@ Proof.
   - eapply sameX_Inv; [apply emit_sameX|exact H].
 Qed.
 
+Lemma set_sup_Inv w sup :
+  Inv w -> (forall a, In a sup -> In a (inbox_sup w) \/ exists act, lookup a (actors w) = Some act /\ a_alive act = false) ->
+  Inv (set_inbox_sup sup w).
+Proof.
+  intros [H1 H2 H3 H4 H5 H6 H7 H8 H9 H10 H11] S. constructor; try assumption.
+  simpl. intros a Ia. destruct (S a Ia) as [Io|D]; [apply H5; exact Io|exact D].
+Qed.
+
 Lemma step_Inv c w l : Inv w -> LEN w -> (l = LFactory -> ~ stale_head w) -> Inv (step c w l).
 Proof.
   intros H LN NS. destruct l; simpl.
@@ -1147,6 +1164,19 @@ Proof.
     destruct (a_alive x); [apply actor_exit_Inv|]; exact H.
   - unfold w_exit. destruct (lookup a (actors w)) as [x|]; [|exact H].
     destruct (a_alive x), (a_stop x), (a_run x); try exact H. apply actor_exit_Inv. exact H.
+  - eapply sameX_Inv; [|apply stop_actor_Inv; exact H]. sx.
+  - unfold w_close. destruct (lookup a (actors w)) as [x|]; [|exact H].
+    destruct (a_alive x), (a_stop x), (a_run x); try exact H.
+    pose proof (actor_exit_Inv None a (CStopExit a) w H) as H1.
+    eapply sameX_Inv; [|apply (set_sup_Inv (actor_exit a (CStopExit a) w) (inbox_sup w) H1)].
+    + sx.
+    + intros y Iy. left. unfold actor_exit. destruct (lookup a (actors w)); [simpl; apply in_or_app; auto|exact Iy].
+  - unfold w_closed. destruct (lookup a (actors w)) as [x|] eqn:L; [|exact H].
+    destruct (memN a (closing w) && negb (a_alive x)) eqn:G; [|exact H].
+    apply andb_prop in G. destruct G as [_ D]. apply negb_true_iff in D.
+    eapply sameX_Inv; [|apply (set_sup_Inv w (inbox_sup w ++ [a]) H)].
+    + sx.
+    + intros y Iy. apply in_app_iff in Iy. destruct Iy as [Iy|[<-|[]]]; [auto|right; eauto].
   - apply finalize_Inv. exact H.
 Qed.
 
